@@ -120,6 +120,27 @@ theorem error_stops_immediately (v : Visitor α) (t : Tree α) (pre post : List 
   | visitorError => exact hr
   | cursorError => simp [okRes, hs] at hok
 
+/-- `walk_leaves_handler_clean`: a walk in which no callback cancelled (no SetDone, no SetError(non-nil)) leaves the
+visitor's handler in its initial state — in particular the consume flag is cleared, whatever the Consume schedule
+(Consume in the root's Enter, Visit or Exit included). `done` and `err` persist BY DESIGN once set: a cancelled or
+failed visitor stays cancelled (`reused_done_visitor_walks_nothing`). -/
+theorem walk_leaves_handler_clean (v : Visitor α) (t : Tree α) (hv : ∀ h, (v h).stop = none) :
+    (generic v t).h = Handler.fresh := by
+  obtain ⟨m, hm, hc⟩ := generic_clean v t
+  exact hc (replay_never_stopped v hv [] _ _ _ hm rfl)
+
+/-- every per-walk theorem lifts to SEQUENCES of walks with one visitor object: after an uncancelled walk the next
+walk with the same visitor object is the walk of a fresh visitor … -/
+theorem reused_visitor_walk (v1 v2 : Visitor α) (t1 t2 : Tree α) (hv : ∀ h, (v1 h).stop = none) :
+    genericFrom (generic v1 t1).h v2 t2 = generic v2 t2 := by
+  rw [walk_leaves_handler_clean v1 t1 hv, genericFrom_fresh]
+
+omit [DecidableEq α] in
+/-- … and after a cancelled or failed walk (done set) the next walk makes no callback and returns nil -/
+theorem reused_done_visitor_walks_nothing (h0 : Handler) (v : Visitor α) (t : Tree α) (hd : h0.done = true) :
+    (genericFrom h0 v t).log = [] ∧ (genericFrom h0 v t).h = h0 ∧
+      (t.good = true → (genericFrom h0 v t).ret = some .ok) := genericFrom_done h0 v t hd
+
 omit [DecidableEq α] in
 /-- `handler_calls_exact`: executing a callback's handler calls one by one — Consume, SetDone, SetError with its
 `err != nil` guard, in any number and order — is exactly the action `actOf` summarises them to; every theorem about
@@ -343,6 +364,9 @@ example : (Tree.prune (fun n => n == 1) tiny).good = true := by decide
 example : (genericCalls (fun h => if h.length == 2 then [.setError true, .consume] else [.setError true]) tiny).log =
     [.enter 0, .enter 1, .exit 1, .visit 0, .enter 3, .exit 3, .exit 0] ∧
     (genericCalls (fun h => if h.length == 2 then [.setError true, .consume] else [.setError true]) tiny).ret = some .ok := by
+  decide
+/-- a bare leaf root consumed in Enter, then a second walk with the same visitor object: all 4 nodes entered -/
+example : (genericFrom (generic (scripted 1 .consume) (.node 9 [] : Tree Nat)).h (fun _ => Act.continue) tiny).log.length = 9 := by
   decide
 /-- Consume in Enter(1) and again in Exit(1): the sibling 3 is still walked -/
 example : (generic (fun h => if h.length == 2 || h.length == 3 then Act.consume else .continue) tiny).log =
